@@ -155,7 +155,12 @@ def _strip_all(s):
             j = _match_angle(s, i)
             inner = s[i + 1:j]
             if inner.startswith("impl "):
-                out.append("<impl " + _strip_all(inner[5:]) + ">")
+                body = inner[5:]
+                k = _find_top(body, " for ")
+                if k >= 0:
+                    out.append("<impl " + _strip_trait(body[:k]) + " for " + _strip_all(body[k + 5:]) + ">")
+                else:
+                    out.append("<impl " + _strip_all(body) + ">")
             else:
                 # drop the group, and the `::` of a turbofish
                 if len(out) >= 2 and out[-1] == ":" and out[-2] == ":":
@@ -166,6 +171,21 @@ def _strip_all(s):
             out.append(c)
             i += 1
     return "".join(out)
+
+
+def _find_top(s, needle):
+    depth = 0
+    i = 0
+    while i < len(s):
+        c = s[i]
+        if c == "<":
+            depth += 1
+        elif c == ">" and s[i - 1] != "-":
+            depth -= 1
+        elif depth == 0 and s.startswith(needle, i):
+            return i
+        i += 1
+    return -1
 
 
 def _split_top_as(s):
